@@ -49,6 +49,17 @@ check("C19", "exploration",
       "Trusted: the normal form (strips whitespace only at block boundaries and around heading titles).",
       "DESIGN.md §3 C19")
 
+check("C04", "exploration",
+      EXH + "a direct evaluator of the expansion AST (reference transclusion semantics, no wikitext parsing)",
+      "Every (template library, page) pair of total AST size <= 5 over Text/Param[default]/Call/#if/#ifeq/#switch/sequence with whitespace-bearing atoms, positional and named arguments, nested calls, a missing template and 0..2 library templates (acyclic), plus every inclusion wrapper, is rendered, expanded by the real expand() and compared exactly with the evaluator (about 10^6 pairs quick, ~10^7 thorough).",
+      "Trusted: the evaluator and renderer in vmc/ref_expand.py. Atoms avoid '=', '|', braces, so rendering is unambiguous.",
+      "DESIGN.md §3 C04")
+check("C13", "exploration",
+      EXH + "the reference evaluator extended with the selection rule and hook semantics, over all configurations x grammar pages",
+      "All combinations of templates_to_expand x templates_to_not_expand x pre_expand x expand_parserfns x template_fn x post_template_fn behaviours (600 quick / 3840 thorough) times every grammar page up to size 3 (+ size-4 control-flow and interaction pages) are expanded; output, the multiset of template_fn calls with their argument maps, the post_template_fn calls with the default expansion, and identity-when-nothing-selected are compared with the reference.",
+      "Trusted: the selection rule as written in the expand() docstring; the reading that values consumed by an expanded construct are complete expansions (DESIGN.md). expand_invoke is covered by C16.",
+      "DESIGN.md §3 C13")
+
 NOT_APPLICABLE = {}
 for i in range(1, 21):
     pid = "C%02d" % i
